@@ -90,7 +90,7 @@ def _one(case, R, rng):
     from rpylib.numerical.closedform.cflevymodel import CFLevyModel
 
     spec = W.gen_model_spec(rng, exp=True)
-    spec["r"] = max(spec["r"], 0.005)
+    spec["r"] = max(spec["r"], 0.005) if rng.random() < 0.8 else 0.0        # (zero interest rates are rates too)
     if spec["family"] == "MERTON":
         spec["params"]["sigma_j"] = max(spec["params"]["sigma_j"], 0.08)
         spec["params"]["mu_j"] = min(spec["params"]["mu_j"], 0.05)
@@ -159,8 +159,9 @@ def _nd(case, R, rng):
     if want == "clayton-interior":
         cm["copula"]["eta"] = W.r6(rng.uniform(0.15, 0.85))       # mass in every orthant
     W.limit_variation(rng, cm, allow_infinite=bool(d == 2 and rng.random() < 0.3), y_hi=0.7)
+    r_common = max(cm["margins"][0]["r"], 0.005) if rng.random() < 0.8 else 0.0
     for ms in cm["margins"]:
-        ms["r"] = max(cm["margins"][0]["r"], 0.005)
+        ms["r"] = r_common
         ms["d"] = 0.0
         if ms["family"] == "MERTON":
             ms["params"]["sigma_j"] = max(ms["params"]["sigma_j"], 0.08)
